@@ -1,31 +1,56 @@
 #!/usr/bin/env python3
-"""tools/rs2v_glue.py — TRANSLATOR: the "glue" layer of /repo/src  ->  coq/Generated/Glue.v
+"""tools/rs2v_glue.py — TRANSLATOR: the non-loop ("glue") functions of /repo/src  ->  coq/Generated/Glue.v
 
-The glue layer is the set of one-line projection functions of bnum (checked_* = tuple_to_option(overflowing_*),
-wrapping_* = overflowing_*.0, saturating_*, strict_* = option_expect!(checked_*), the inherent add/sub/mul/shl/shr that
-switch on cfg(debug_assertions), max/min/clamp/lt/le/gt/ge, carrying_add/borrowing_sub, the non-loop overflowing_* forms).
-Each such `const fn` of the files in FILES below is re-translated FROM /repo's CURRENT SOURCE ON EVERY RUN into a
+Round 1: the one-line projection functions of bnum (checked_* = tuple_to_option(overflowing_*), wrapping_* =
+overflowing_*.0, saturating_*, strict_* = option_expect!(checked_*), the inherent add/sub/mul/shl/shr that switch on
+cfg(debug_assertions), max/min/clamp/lt/le/gt/ge, carrying_add/borrowing_sub, the non-loop overflowing_* forms).
+Round 2: every other function without a loop of buint/mod.rs, bint/mod.rs (rotate, unbounded shifts, bits, abs, signum,
+midpoint, abs_diff, div_floor/ceil, next_multiple_of, pow, ilog2 ..), const_trait_fillers.rs (div rem neg ne, BInt bit
+operations / eq / cmp), the functions of checked.rs / overflowing.rs with nested early returns or `let mut`
+(bint div_rem_unchecked, overflowing_div(_euclid), overflowing_rem_euclid, overflowing_pow, checked_pow,
+checked_next_multiple_of, checked_next_power_of_two, checked_ilog2), int/unchecked.rs, the operator trait impls of
+int/ops.rs / buint/ops.rs / bint/ops.rs (including Shl / Shr for the twelve primitive amount types) and the num_traits
+forwarders of int/numtraits.rs.
+Each function of the files in FILES / INSTANCES below is re-translated FROM /repo's CURRENT SOURCE ON EVERY RUN into a
 Gallina definition over the hand-written model functions (coq/Model/*.v): a call `x.f(args)` becomes the model function
-`U_f` / `I_f` (by the static type of the receiver) applied to the translated arguments.  coq/Proofs/GlueTie.v proves
-every generated definition equal, for all arguments, to the hand-written model function of the same name — so an edit
-of the Rust source that changes what a glue function delegates to changes the generated definition and breaks a proof
-obligation, while a behaviour-preserving rewrite inside the supported subset still goes through.
+`U_f` / `I_f` (by the static type of the receiver) applied to the translated arguments.  coq/Proofs/GlueTieC*.v prove
+every generated definition equal, for all arguments, to the hand-written model function the property theorems are about
+(one tie file per property: `group_of` finds the property of a function by searching them for `Glue.<name>`) — so an edit
+of the Rust source that changes what a function computes or delegates to changes the generated definition and breaks a
+proof obligation, while a behaviour-preserving rewrite inside the supported subset still goes through.
 
-Supported subset (anything else in an in-scope function: exit 1 with the function name; never a silent skip):
-  statements   let x = e;   let (a, b) = e;   assert!(c);   if c { div_zero!() }   if c { return e; }   return e;
-               #[cfg(debug_assertions)] return e1;  #[cfg(not(debug_assertions))] e2      ->  if dbg then e1 else e2
-  expressions  x.f(args)   Self::f(args) / $BUint::f::<B>(args)   x.0 x.1 x.bits   (a, b)   Some(e) None true false 123
-               tuple_to_option(e)   option_expect!(e, msg)   div_zero!()   Self::CONST / $BUint::CONST / $BInt::CONST
+Supported subset (anything else in an in-scope function: that function becomes a stub and the translator exits 1 for its
+property; never a silent skip, never a guess):
+  statements   let x = e;   let (a, b) = e;   let mut x = e;  x = e;  (straight-line reassignment = shadowing)
+               assert!(c);   use path;   panic!(..); / div_zero!(); / rem_zero!();
+               if c { return e; } / if c { panic } / nested statement-level if .. else if .. whose branches return, panic or
+               fall through (the rest of the function is the continuation of every branch that falls through)
+               if c { x = e1; .. } else { x = e2; .. }  with assignments to `let mut` variables (nested allowed, no return
+               inside)  ->  let x = if c { e1 } else { e2 }  (several variables: a tuple)
+               return e;   #[cfg(debug_assertions)] return e1;  #[cfg(not(debug_assertions))] e2      ->  if dbg then e1 else e2
+               #[cfg(debug_assertions)] let x = e1;  #[cfg(not(debug_assertions))] let x = e2;         ->  let x = if dbg ..
+  expressions  x.f(args)  x.f::<true>(args)  Self::f(args) / $BUint::f::<B>(args)   x.0 x.1 x.bits x.bits.digits[0]   (a, b)
+               Some(e) None true false 123   Ordering::Less/Equal/Greater
+               tuple_to_option(e)   option_expect!(e, msg)   result_expect!(e, msg)   Self::CONST / $BUint::CONST / $BInt::CONST
                if c { a } else { b }   if let P = e { a } else { b }   match e { P | Q => a, _ => b }
-               ! == != < <= > >= || && ^ | & + -   &e (transparent)   unsafe { .. } / { .. } blocks
+               ! == != < <= > >= || && ^ | & + -   `% Self::BITS`   a * b, a + b, a - b on Self (= the inherent mul add sub)
+               &e *e (transparent)   unsafe { .. } / { .. } blocks
                x.to_bits() / Self::from_bits(x) (identity on the digit list; they only change the static type)
-  patterns     Some(x)  None  Ordering::Less|Equal|Greater  true false  _
+               e as ExpType (identity on ExpType, u8, u16; `mod 2^32` on the other primitive integers)
+               ExpType::try_from(prim) (Some exactly when 0 <= x <= u32::MAX)   u32::checked_sub
+               o.unwrap_unchecked() as the whole body: the function is generated at type option (None = undefined behaviour)
+  patterns     Some(x)  None  Ordering::Less|Equal|Greater  true false  _  (true, false) ..
+  functions    inherent / free `fn`s by name; functions of trait impls by `<Trait> for <Type>::<name>`; functions produced by
+               single-arm helper macros (ilog!, checked_ilog!, num_trait_impl!, shift_impl!, try_shift_impl!) by expanding the
+               macro body once per listed invocation (a repetition group is expanded once or dropped), every invocation of
+               such a macro in its file being either expanded or listed as skipped with a reason
 Rust panics are `outcome` (Ret / Panic): an expression that contains a call of an outcome-valued model function is
 sequenced left to right with obind, the last bind being omap when the continuation is pure (so `f(x).0` is
 `omap (fun r => fst r) (F x)` and `(g(x), false)` is `omap (fun r => (r, false)) (G x)`, as in the hand model).
 Functions that are out of scope are listed in the SKIP tables below with the reason; a function of an in-scope macro
 body that is neither wanted nor skipped makes the translator fail (the source grew something the tie does not cover).
-Writes coq/Generated/Glue.v only when the content changes; deterministic."""
+Writes coq/Generated/Glue.v only when the content changes; deterministic.  BNUM_REPO overrides /repo (mutation
+experiments), RS2V_GLUE_OUT the output path (development)."""
 import re, sys, os
 
 REPO = os.environ.get("BNUM_REPO", "/repo")
@@ -1697,9 +1722,9 @@ def main():
         CUR[0] = path
         if re.sub(r"\s+", "", text) not in re.sub(r"\s+", "", strip_comments(open(os.path.join(REPO, path)).read())):
             die("the macro expansion `%s` is no longer there" % text)
-    out = ["(* GENERATED on every run by tools/rs2v_glue.py from /repo/src (the one-line projection functions of",
-           "   buint/ bint/ int/ : checked, wrapping, saturating, strict, overflowing (non-loop forms), cmp, ops,",
-           "   bigint_helpers).  Do not edit.  Proofs/GlueTie.v proves each definition equal to the hand-written model. *)",
+    out = ["(* GENERATED on every run by tools/rs2v_glue.py from /repo/src (the non-loop functions of buint/ bint/ int/ :",
+           "   checked, wrapping, saturating, strict, overflowing, cmp, ops, bigint_helpers, mod, const_trait_fillers, unchecked,",
+           "   numtraits).  Do not edit.  Proofs/GlueTieC*.v prove each definition equal to the hand-written model. *)",
            "From Bnum Require Import Base Prim.",
            "From Bnum.Model Require Import Digit Core Shift AddSub Mul Div Bits Pow.", "", "Module Glue.", ""]
     count = {}
